@@ -55,7 +55,11 @@ def gen_session(rng, ids, allow_bad):
         r = rng.random()
         if r < 0.68:
             ts += rng.choice([0, 1, 5])
-            first = "COMMAND%s[%d] %s" % (rng.choice([" ", " ", " ", "  "]), ts, rng.choice(ARGS))
+            arg = rng.choice(ARGS)
+            if rng.random() < 0.12:
+                # a check result with a long output: the command line is longer than the 4 KiB the connection's reader holds at once
+                arg = "PROCESS_SERVICE_CHECK_RESULT;host_%d;svc;0;%s" % (k, ("out=%d;/srv/data/volume " % k) * rng.choice([150, 230, 400]))
+            first = "COMMAND%s[%d] %s" % (rng.choice([" ", " ", " ", "  "]), ts, arg)
             if rng.random() < 0.1:
                 first += rng.choice([" ", "  ", "\t"])
             hdrs = []
